@@ -141,6 +141,8 @@ Result(r) ==
        \cup V(r.ok => \A i \in 0..2 : r.has[i + 1] = (StreamCfg(i) = "pipe"), "C05_handle_iff_piped")
        \cup V(Invalid => ~r.ok /\ r.errkind = "logic" /\ ~forked, "C05_invalid_refused")
        \cup V(r.errkind # "panic", "C07_panic")
+       \* (a launch that panics breaks whatever the scenario was about)
+       \cup (IF r.errkind = "panic" THEN {"C05_panic", "C06_panic", "C08_panic", "C15_panic", "C17_panic", "C18_panic"} ELSE {})
        \* a launch that has every reason to succeed must succeed (otherwise nothing below is observed)
        \cup (IF cfg.expect_start /\ ~cfg.has_fault /\ ~Invalid /\ ~cfg.nul /\ ~cfg.has_path /\ ~r.ok
              THEN {"C05_unexpected_launch_failure", "C06_unexpected_launch_failure", "C08_unexpected_launch_failure",
